@@ -282,6 +282,9 @@ int setup_udp_socket_address(struct in_addr* addr, uint32_t port, struct sockadd
 int setup_can_socket(const char* can_ifname, Avtp_CanVariant_t can_variant) { (void)can_ifname; (void)can_variant; return X_CAN_FD; }
 #endif
 
+/* ambient state of the process: m2 = 3 runs the listener as if started from an interactive terminal (stdin/stdout are terminals) */
+static int x_tty;
+int isatty(int fd) { return x_tty && (fd == 0 || fd == 1); }
 static int hexv(int c) { return c <= '9' ? c - '0' : (c | 32) - 'a' + 10; }
 static size_t unhex_(const char* s, uint8_t* out, size_t max)
 {
@@ -295,6 +298,7 @@ static void child(char** tok, int nt)
     int m[3] = { atoi(tok[1]), atoi(tok[2]), atoi(tok[3]) };
     int devnull = open("/dev/null", O_WRONLY);
     if (devnull >= 0) { dup2(devnull, 1); }
+    if (m[2] == 3) x_tty = 1;
     if (m[2] == 2) {          /* soak mode: a long run of datagrams with a small stack, so that per-datagram growth shows early */
         struct rlimit rl; rl.rlim_cur = rl.rlim_max = 1024 * 1024; setrlimit(RLIMIT_STACK, &rl);
     }
